@@ -13,6 +13,7 @@ Step ==
   /\ l <= Len(Trace) /\ l' = l + 1 /\ hi' = l
   /\ \/ Ev.ev = "Reset" /\ store' = Empty /\ done' = Empty /\ ev' = [ev |-> "R"]
      \/ Ev.ev = "send" /\ UNCHANGED <<store, done>> /\ ev' = Ev
+     \/ Ev.ev = "local" /\ UNCHANGED <<store, done>> /\ ev' = Ev
      \/ Ev.ev = "rx" /\ Ev.f.seq >= 0 /\ Rx(Fr, Ev.delivered)
      \/ Ev.ev = "rx" /\ Ev.f.seq < 0 /\ UNCHANGED <<store, done>> /\ ev' = [ev |-> "rx1", m |-> Ev.m, delivered |-> Ev.delivered]
 TSpec == TInit /\ [][Step]_tvars
@@ -22,6 +23,7 @@ Frames4(e) == [x \in 1..Len(e.frames) |-> e.frames[x]]
 I_C10send == (ev.ev = "send") => SendOK(ev, Frames4(ev))
 I_nopanic == hi >= 1 => ~("panic" \in DOMAIN Trace[hi])
 \* an unfragmented frame is delivered at once, as itself
+I_C10local == (ev.ev = "local") => LocalFieldsOK(ev)
 I_C10single == (ev.ev = "rx1") => ev.delivered = << ev.m >>
 \* delivered packets are the original bytes with the original token and congestion mark
 T_C10intact == [][(l <= Len(Trace) /\ Ev.ev = "rx") => Ev.intact]_tvars
